@@ -544,14 +544,30 @@ CHECKS = {
             "managers: 3-6 threads issuing ROA deltas with unique prefixes, "
             "rejected deltas and reads against two CAs, then the same "
             "counting/ordering rules, the history API, and a relying-party "
-            "walk after catch-up. evaluations = entities checked per "
-            "history; distinct_nontrivial = distinct orders in which the "
+            "walk after catch-up. (c) directed pre-emption, one context "
+            "switch per run: a background task of the real scheduler code "
+            "(the daily snapshot job, which works through its own store "
+            "instances; an RRDP update) is parked at its k-th yield point "
+            "(quick: 5 seeded positions per template world, thorough: every "
+            "position) while a complete API command plus the repository "
+            "synchronisations of both CAs run on another thread (they "
+            "finish after the release when they need a lock the parked "
+            "task holds); afterwards the running instance and an instance "
+            "opened afresh on the same directory must show the same "
+            "configured ROAs and published files, with the acknowledged "
+            "change in them, and the tree must be RP-valid. evaluations = "
+            "entities checked per history + directed runs; "
+            "distinct_nontrivial = distinct orders in which the "
             "threads entered the critical section with at least two "
-            "switches between threads."
+            "switches between threads + distinct (victim, yield site, "
+            "intruder overlapped or not) directed situations."
         ),
         "assumptions": COMMON_ASSUMPTIONS + [
             "interleavings are those the OS scheduler produces under the "
-            "seeded perturbation; they are sampled, not enumerated",
+            "seeded perturbation; they are sampled, not enumerated; the "
+            "directed part enumerates single pre-emptions at the yield "
+            "points of the verif-hooks only (lock acquisition, between "
+            "locks, around command/WAL stores and cache updates)",
             "Miri and ThreadSanitizer runs of this workload are not part "
             "of the registered commands (see DESIGN.md, sanitizer layer)",
         ],
@@ -939,10 +955,10 @@ CHECKS = {
     "C08": {
         "bin": "c08",
         "level": "fault_enumeration",
-        "quick": {"shards": 18, "budget_s": 45, "min_evaluations": 150},
-        "thorough": {"shards": 18, "budget_s": 1500, "min_evaluations": 6000},
+        "quick": {"shards": 19, "budget_s": 45, "min_evaluations": 150},
+        "thorough": {"shards": 19, "budget_s": 1500, "min_evaluations": 6000},
         "rule": (
-            "18 (operation kind x state class) pairs on TA -> p -> c: ROA "
+            "19 (operation kind x state class) pairs on TA -> p -> c: ROA "
             "delta (steady / during roll), a REFUSED ROA delta (its only "
             "write is the audit record of the refusal), ASPA update, BGPsec "
             "add, child "
@@ -950,7 +966,8 @@ CHECKS = {
             "re-issue it triggers), child suspend, child remove, roll "
             "initiate (child and parent under the TA signer), roll activate, "
             "parent removal (two parents), forced republish, forced ROA "
-            "renewal, CA deletion, child registration, parent addition. "
+            "renewal, CA deletion, child registration, parent addition, "
+            "removal of a publisher that still has objects at the server. "
             "For each pair one fault-free recording run numbers EVERY "
             "key-value and file-system mutation of the operation and of the "
             "tasks it triggers up to quiescence and copies the data and "
